@@ -222,6 +222,10 @@ func c07Modes(c *vh.Ctx) []c07Mode {
 		{"regex", []byte("x*y"), []byte("xxya")},
 		{"regex", []byte("\n\n"), []byte("\n\na")},
 		{"regex", []byte("()"), []byte("ab")},
+		{"regex", []byte("\n$"), []byte("a\n\nb")},
+		{"regex", []byte("a\\b"), []byte("aab ")},
+		{"regex", []byte("x."), []byte("xx\xc3\xb6a")},
+		{"regex", []byte("^a|b"), []byte("aabc")},
 	}
 	if c.Thorough() {
 		for b := 0; b < 256; b += 1 + c.Rng.Intn(7) {
